@@ -301,3 +301,13 @@ def build():
     C.assume("placeholder objects complete the future returned by subscribe_* on the next change (notifier side: "
              "machine_var_/player_ events, DeviceMonitor)")
     return C
+
+
+def build_extra():
+    """conditions of queue-event handlers must be evaluated right before the handler's turn (a condition read
+    while an earlier handler still holds the queue would be stale): the sequential dispatcher contract of C02"""
+    from . import C02
+    c = C02.build()
+    c.pid = "C16b"
+    c.only_verify = ["EventManager._run_handlers_sequential"]
+    return [c]
